@@ -154,6 +154,9 @@ def shapes(tier="quick", seed=0):
     add("path-level-params", doc("PL", [op("/pl/{id}", "get", "getPl", ["pl"], [param("v", "query")], responses={"200": {"description": "ok"}}),
                                         op("/pl/{id}", "delete", "delPl", ["pl"], None, None, {"204": {"description": "ok"}})],
                                  path_level={"/pl/{id}": [param("id", "path"), param("X-Tenant", "header")]}), path_level=True)
+    # path variables that the operation does not declare as parameters (the generator supplies them): several, not in alphabetical order
+    add("undeclared-path-vars", doc("UPV", [op("/u/{beta}/{alpha}/{gamma}/{delta}", "get", "getU", ["u"]),
+                                            op("/v/{zulu}/x/{yankee}", "put", "putV", ["u"], [param("q", "query")], body_json(PRIMS["str"]))]))
     add("path-forms", doc("PF", [op("/items/{itemId}/", "get", "getItemSlash", ["pf"], [param("itemId", "path")]),
                                  op("/", "get", "getRoot", ["pf"]), op("/a.b/c-d/{x}.json", "get", "getDotted", ["pf"], [param("x", "path")]),
                                  op("/v1/items/", "post", "postItems", ["pf"], None, body_json(PRIMS["str"]))]), path_forms=True)
